@@ -2163,6 +2163,18 @@ def run(ctx: vlib.Ctx) -> None:
 def replay(ctx: vlib.Ctx, path: str) -> None:
     d = json.load(open(path))
     rep = d.get("replay", d)
+    if rep.get("kind") == "daemon-history":
+        rs = daemon_script(rep["history"])
+        for files, (st, out, hung) in zip(rep["history"], rs):
+            print("--- edit:", {k: v for k, v in files.items()})
+            print(f"    dmypy check -- main.py -> status {st}{' (hung)' if hung else ''}: {out.strip()[-400:]!r}")
+        fresh = daemon_script(rep["history"][-1:])
+        print("fresh daemon on the last file set:", fresh[-1][:2])
+        if rs and fresh and (rs[-1][0], sorted(rs[-1][1].splitlines())) != (fresh[-1][0], sorted(fresh[-1][1].splitlines())):
+            ctx.violation(d.get("key", "daemon:stale-answer-after-history"), "daemon answer after the history differs from a fresh daemon's answer", rep)
+        else:
+            ctx.log("replay: the daemon now answers like a fresh daemon")
+        return
     if rep.get("kind") != "mypy-run":
         print(json.dumps(d, indent=1)[:3000])
         run(ctx)
